@@ -1,6 +1,8 @@
 import RemocModel.Link.CloseInv
 import RemocModel.Link.Relay
 import RemocModel.Props.C01
+import RemocModel.Base.CloseProv
+import RemocModel.Base.CloseList
 set_option linter.unusedSimpArgs false
 
 /-!
@@ -17,8 +19,11 @@ position of a message stream (also in the middle of a chunked message).
   `ReceiveFinish` *non-gracefully*, the first of the two decides; afterwards no new credits can be
   obtained (`closed_blocks_requests`) and a waiting or later operation fails (`closed_enables_fail`).
 
-The typed channels (base, mpsc, lr, oneshot, bin) are covered by the correspondence runs of the
-typed-channel harness (predicate `c11`), not by theorems.
+The queued typed channels (`rch::mpsc`, `rch::oneshot`) have their own model M_close
+(`RemocModel/Base/Close*.lean`: local queue with `Sending` handles, `send_impl`, `recv_impl`, back
+channel, receiver `close()` / drop, sender clones local and remote, connection failure); the
+theorems are in the second half of this file (namespace `Remoc.Close`).  `rch::lr` is a base
+channel over one port: its statements are the M_link theorems above, read through `lrReason`.
 -/
 
 namespace Remoc.Link
@@ -159,3 +164,69 @@ example : (rrun relayCfg relayCfg (rinit relayCfg relayCfg) relayRun).b.delivere
     (rrun relayCfg relayCfg (rinit relayCfg relayCfg) relayRun).a.completed = [[1, 2]] := by decide
 
 end Remoc.Link
+
+/-! # Typed channels with a local queue: `rch::mpsc`, `rch::oneshot` (M_close) -/
+
+namespace Remoc.Close
+
+/-- **The values accepted but not transmitted form a suffix and are reported as dropped.**
+For every schedule: the values `send` accepted on a link (a `Sending` handle was issued) are, in
+the order of acceptance, first the ones whose handle is resolved, then the one `send_impl` is
+transmitting, then the ones still queued; the resolved results never show a dropped value before
+a transmitted (`Ok`) or individually failed one — no gap; exactly the transmitted values resolve
+`Ok`; nothing is dropped while `send_impl` runs; and once it has ended (close, receiver dropped,
+failure, all senders gone) every handle is resolved, i.e. the untransmitted suffix is all `Dropped`. -/
+theorem mpsc_queued_suffix_dropped (c : Cfg) (s : State) (h : Reachable c s) :
+    s.accepted = s.hres.map (·.1) ++ s.cur.toList ++ s.q ∧
+    (∃ pre suf, s.hres.map (·.2) = pre ++ suf ∧ NonDropped pre ∧ ∀ r ∈ suf, r = HRes.dropped) ∧
+    s.xmit = (s.hres.filter (·.2 == .ok)).map (·.1) ∧
+    (s.impl = none → NonDropped (s.hres.map (·.2))) ∧
+    (s.impl.isSome → s.accepted = s.hres.map (·.1)) := by
+  have q := qinv_reachable c s h
+  refine ⟨q.acc, suffixOk_split _ q.sorted, q.xm, q.running, fun hi => ?_⟩
+  obtain ⟨hc, hq⟩ := q.ended hi
+  rw [q.acc, hc, hq]; simp
+
+/-- **At the moment `send_impl` learns of the close / drop / failure** (any step that ends it): the
+handles resolved so far are untouched, exactly the values still queued locally are dropped, in
+order, and they are the tail of the accepted values. -/
+theorem mpsc_end_drops_exactly_queue (c : Cfg) (s s' : State) (l : Label) (h : Reachable c s)
+    (hrun : s.impl = none) (hs : step c s l = some s') (hend : s'.impl.isSome) :
+    s'.hres = s.hres ++ s.q.map (·, HRes.dropped) ∧ s'.accepted = s.accepted ∧ s'.xmit = s.xmit ∧
+    s.accepted = s.hres.map (·.1) ++ s.q := by
+  have q := qinv_reachable c s h
+  have hacc := q.acc
+  cases l <;> simp only [step] at hs <;> (repeat' split at hs) <;> (try (simp at hs; done)) <;>
+    (try (obtain rfl := Option.some.inj hs)) <;> (try (simp [hrun, rexit] at hend; done)) <;>
+    simp_all [endWith]
+
+/-- the same per sender clone `k` of the link: its accepted values are its resolved ones followed
+by its still queued ones, and its results alone never show a dropped value before another one -/
+theorem mpsc_queued_suffix_per_sender (c : Cfg) (s : State) (h : Reachable c s) (k : Nat) :
+    s.accepted.filter (·.sender == k) =
+      (s.hres.filter (·.1.sender == k)).map (·.1) ++ (s.cur.toList ++ s.q).filter (·.sender == k) ∧
+    suffixOk ((s.hres.filter (·.1.sender == k)).map (·.2)) = true := by
+  have q := qinv_reachable c s h
+  refine ⟨?_, suffixOk_sublist (List.Sublist.map _ List.filter_sublist) q.sorted⟩
+  rw [q.acc, List.append_assoc, List.filter_append, List.filter_map]
+  rfl
+
+/-! non-vacuity: two clones (0 and 1) of a remote sender accept three values; the first is transmitted,
+the receiver calls `close()`, the CLOSE byte reaches `send_impl` while two values are still queued -/
+def cfg3 : Cfg := { cap := 3, rcap := 2 }
+def qsRun : List Label :=
+  [.clone, .send ⟨1, 0, .no⟩, .admit, .send ⟨2, 1, .no⟩, .admit, .send ⟨3, 0, .no⟩, .admit, .implTake, .xmitDone,
+   .close, .rSeeClosed, .implBack]
+
+example : (run cfg3 (init 1 0 0) qsRun).accepted.map (·.id) = [1, 2, 3] ∧
+    (run cfg3 (init 1 0 0) qsRun).hres.map (fun p => (p.1.id, p.2)) = [(1, .ok), (2, .dropped), (3, .dropped)] ∧
+    (run cfg3 (init 1 0 0) qsRun).xmit.map (·.id) = [1] ∧
+    (run cfg3 (init 1 0 0) qsRun).impl = some .close ∧
+    (run cfg3 (init 1 0 0) qsRun).reason = some .closed := by decide
+
+/-- the step that ends `send_impl` in that run drops exactly the two queued values -/
+example : (run cfg3 (init 1 0 0) qsRun.dropLast).impl = none ∧
+    (run cfg3 (init 1 0 0) qsRun.dropLast).q.map (·.id) = [2, 3] ∧
+    (step cfg3 (run cfg3 (init 1 0 0) qsRun.dropLast) .implBack).isSome = true := by decide
+
+end Remoc.Close
